@@ -208,6 +208,12 @@ def expr(t):
     raise ValueError('not an int expression: %r' % (t,))
 
 
+POSITIONAL = {'datetime': ('year', 'month', 'day', 'hour', 'minute', 'second', 'microsecond', 'tzinfo'),
+              'date': ('year', 'month', 'day'),
+              'time': ('hour', 'minute', 'second', 'microsecond', 'tzinfo'),
+              'timedelta': ('days', 'seconds', 'microseconds', 'milliseconds', 'minutes', 'hours', 'weeks')}
+
+
 def family_cases(chk):
     """Grids emitted by TLC -> real objects -> printed keyword lists -> validated by TLC."""
     wd = os.path.join(chk.workdir, 'grid')
@@ -250,8 +256,11 @@ def family_cases(chk):
                 assert t[0] == 'call' and t[1] == 'datetime.' + kind, t
                 kws = [[k, expr(v)] for k, v in t[3]]
                 if t[2]:
-                    assert kind == 'datetime' and len(t[2]) == 3 and not kws
-                    kws = [[n, expr(v)] for n, v in zip(('year', 'month', 'day'), t[2])]
+                    # positional arguments stand for the constructor's parameters in order (any prefix of them may be
+                    # written positionally: the property is about what the expression evaluates to)
+                    names = POSITIONAL[kind]
+                    assert len(t[2]) <= len(names) and not (set(names[:len(t[2])]) & {k for k, _ in kws}), t
+                    kws = [[n, expr(v)] for n, v in zip(names, t[2])] + kws
             except (pyterm.ParseError, AssertionError, ValueError) as ex:
                 chk.violation('C07.faithful', 'unexpected shape of the printed %s: %r (%r)' % (kind, out, ex), desc)
                 break
